@@ -90,6 +90,7 @@ def gen_universe(rng, draft="2020", max_docs=3):
         return "T%d" % mark_n[0]
 
     docs = []  # (retrieval uri, body Obj, canonical uri)
+    ghosts, shadows = [], []     # draft-07: plain-name $ids written beside a $ref (ignored): fresh names / names of effective targets
     used_res = set()   # resource URIs already taken (two equal $ids in one universe are outside every property)
 
     def build_doc(di, retrieval):
@@ -101,7 +102,9 @@ def gen_universe(rng, draft="2020", max_docs=3):
             idv = rng.choice(REL_IDS[:5]) if retrieval and not retrieval.startswith("urn:") else rng.choice([SITE + "/canon/y%d.json" % di, "urn:example:id%d" % di])
             j = join(retrieval, idv)
             if j is not None and is_abs(j) and j not in used_res and j not in uris and j != base:
-                body.set("$id", idv)
+                # draft-07: an $id that ends in a bare '#' (empty fragment, the spelling of the draft-07 meta-schema's own $id) is an
+                # ordinary base URI, not a plain-name identifier
+                body.set("$id", idv + ("#" if draft == "7" and rng.random() < 0.3 else ""))
                 canon = j
         used_res.add(canon)
         used_res.add(retrieval)
@@ -140,7 +143,7 @@ def gen_universe(rng, draft="2020", max_docs=3):
                         else:
                             inner.set("$id", "#" + a2)
                     # a reference to "#" from INSIDE the embedded resource designates that resource's root, not the document's
-                    t = Obj([("$id", idv), (defs_kw, Obj([("in", inner), ("selfref", Obj([("$ref", rng.choice(["#", "#", "#/" + defs_kw + "/in"]))]))])), ("const", m)] +
+                    t = Obj([("$id", idv + ("#" if draft == "7" and rng.random() < 0.3 else "")), (defs_kw, Obj([("in", inner), ("selfref", Obj([("$ref", rng.choice(["#", "#", "#/" + defs_kw + "/in"]))]))])), ("const", m)] +
                             ([("$anchor", anchor)] if anchor and draft == "2020" else []))
                     # anchors declared on the embedded resource's own root belong to the embedded resource
                     targets.append(Target(m, di, [j], anchor if draft == "2020" else None, "", True, True))
@@ -151,6 +154,29 @@ def gen_universe(rng, draft="2020", max_docs=3):
                     continue
             defs.kvs.append((name, t))
             targets.append(Target(m, di, res_uris, anchor, ptr, False, False))
+        if draft == "7" and rng.random() < 0.3 and defs.kvs:
+            # draft-07 section 8.3: every sibling of $ref is ignored, so "$id": "#name" beside "$ref" names nothing. The name is fresh (a
+            # reference to it designates nothing) or that of an effective plain-name $id of the same resource, declared on an entry that
+            # comes before or after it in the document (a reference to the name designates that entry, never the alias)
+            tname, _ = rng.choice(defs.kvs)
+            mine = [t for t in targets if t.doc == di and not t.embedded and t.anchor]
+            alias = Obj([("$ref", "#/" + defs_kw + "/" + frag_encode(ptr_escape(tname)))])
+            if mine and rng.random() < 0.6:
+                t = rng.choice(mine)
+                alias.set("$id", "#" + t.anchor)
+                shadows.append(t)
+            else:
+                gname = "G%d" % (len(ghosts) + 1)
+                alias.set("$id", "#" + gname)
+                ghosts.append((di, gname))
+            if rng.random() < 0.5:
+                alias.kvs.reverse()
+            aname = rng.choice(["0alias", "zalias", "alias", "%alias"])
+            if aname not in defs.keys():
+                if rng.random() < 0.5:
+                    defs.kvs.insert(0, (aname, alias))
+                else:
+                    defs.kvs.append((aname, alias))
         body.set(defs_kw, defs)
         return body, canon
 
@@ -219,6 +245,20 @@ def gen_universe(rng, draft="2020", max_docs=3):
             d9 = True     # embedded resource of a loaded document addressed by its own URI
         props.kvs.append(("p%d" % i, Obj([("$ref", ref)])))
         expect_targets.append(t)
+    for t in shadows:
+        # by its plain name, the target whose name an ignored "$id" beside a "$ref" repeats
+        if rng.random() < 0.7:
+            ru = "" if t.doc == -1 and (root_canon in t.res_uris or not root_canon) else (uris[t.doc] if t.doc >= 0 else rng.choice([u for u in t.res_uris if u] or [""]))
+            if t.doc >= 0:
+                seen_docs.add(t.doc)
+            props.kvs.append(("p%d" % len(expect_targets), Obj([("$ref", ru + "#" + frag_encode(t.anchor))])))
+            expect_targets.append(t)
+    for di, gname in ghosts:
+        if rng.random() < 0.4:
+            ru = uris[di] if di >= 0 else ""
+            props.kvs.append(("p%d" % len(expect_targets), Obj([("$ref", ru + "#" + gname)])))
+            expect_targets.append(None)
+            dangling = True
     root_body.set("properties", props)
     if dangling or rng.random() < 0.2:
         root_body.set("allOf", [True])
@@ -317,6 +357,96 @@ def gen_universe(rng, draft="2020", max_docs=3):
     meta = {"dangling": dangling, "d9": d9, "fail": sorted(fail), "nrefs": len(expect_targets), "ndocs": len(docs),
             "base": base}
     return root_body, wire_docs, base, loader, insts, (expect if predictable else None), meta
+
+
+TW = SITE + "/tw/"
+# families of path spellings that are pairwise DIFFERENT URIs (RFC 3986 section 6: a trailing slash, an empty segment and the
+# percent-encoded form of a reserved character are all significant; net/url keeps the spelling it was given and does no
+# normalisation of unreserved characters either, so %7E / ~ and %41 / A name two resources as well), although each pair collapses
+# into one under some plausible "normalisation" (path cleaning, decoding and re-encoding the path)
+TWIN_FAMILIES = [
+    ["a/b", "a/b/", "a//b"], ["dir", "dir/"], ["v1/shape", "v1//shape", "v1/shape/", "v1//shape/"], ["things", "things/", "things//"],
+    ["x/y.json", "x%2Fy.json", "x//y.json"], ["schemas/item.json", "schemas%2Fitem.json"], ["a/b/c.json", "a%2Fb/c.json", "a/b%2Fc.json", "a%2Fb%2Fc.json"],
+    ["~u/s.json", "%7Eu/s.json"], ["A.json", "%41.json"], ["k-1.json", "k%2D1.json"],
+    ["a:b.json", "a%3Ab.json"], ["a$b", "a%24b"], ["a&b", "a%26b"], ["a+b", "a%2Bb"], ["a,b", "a%2Cb"], ["a;b", "a%3Bb"], ["a=b", "a%3Db"],
+    ["a@b", "a%40b"], ["q/a@b.json", "q/a%40b.json", "q%2Fa@b.json"],
+]
+
+
+def twin_universe(rng, draft="2020"):
+    """Two or three DISTINCT schema resources whose absolute URIs are near twins: they differ only by a trailing slash, by an empty
+    path segment ('//'), or by one character being written percent-encoded (%2F for '/', %3A for ':', ... %7E for '~'). Each member is
+    embedded in the root document ($id) or supplied by the Loader (one of each, two of either); each carries its own mark at its root
+    and at an inner definition (reachable by pointer and by anchor). The root refers to every member, once or twice, by the absolute
+    URI or by a relative / absolute-path / network-path spelling that RFC 3986 resolves to it (checked with urllib), in a shuffled
+    order, so that embedded members are registered and Loader members requested in either order. Every reference must reach ITS
+    member; the Loader must be asked for each loaded member exactly once. Expected verdicts by construction.
+    Returns (args, meta)."""
+    defs_kw = "$defs" if draft == "2020" else "definitions"
+    fam = rng.choice(TWIN_FAMILIES)
+    members = [TW + x for x in rng.sample(fam, min(len(fam), rng.choice([2, 2, 2, 3])))]
+    base = rng.choice([TW + "root.json", SITE + "/d/root.json", SITE + "/tw/a/root.json", "https://h.test/p/q/root.json", ""])
+    marks = []
+
+    def new_mark():
+        marks.append("W%d" % (len(marks) + 1))
+        return marks[-1]
+
+    root_defs, docs, tgts = Obj(), [], []     # tgts: (member uri, fragment forms, mark)
+    for k, u in enumerate(members):
+        m0, m1 = new_mark(), new_mark()
+        inner = Obj([("const", m1)])
+        aname = "in%d" % k if rng.random() < 0.5 else "in"     # the same anchor NAME in two resources is fine: anchors are per resource
+        if draft == "2020":
+            inner.set("$anchor", aname)
+        else:
+            inner.set("$id", "#" + aname)
+        body = Obj([(defs_kw, Obj([("t", inner)])), ("const", m0)])
+        if rng.random() < 0.5:
+            spelled = u
+            if base.startswith(SITE) and rng.random() < 0.4:
+                spelled = relativize(rng, base, u)
+            root_defs.kvs.append(("m%d" % k, Obj([("$id", spelled)] + body.kvs)))
+        else:
+            if draft == "7" and rng.random() < 0.3:
+                body.kvs.insert(0, ("$schema", "http://json-schema.org/draft-07/schema#"))
+            docs.append([u, body])
+        tgts.append((u, ["", "#"], m0))
+        tgts.append((u, ["#/" + defs_kw + "/t", "#" + aname], m1))
+    rng.shuffle(root_defs.kvs)
+    refs = []
+    for u, frags, m in tgts:
+        if rng.random() < 0.75 or not refs:
+            refs.append((u, rng.choice(frags), m))
+    # every member is referred to at least once
+    for u in members:
+        if not any(r[0] == u for r in refs):
+            refs.append(rng.choice([(uu, rng.choice(ff), mm) for uu, ff, mm in tgts if uu == u]))
+    rng.shuffle(refs)
+    props, insts, expect = Obj(), [], []
+    for i, (u, frag, m) in enumerate(refs):
+        spelled = u
+        if base and rng.random() < 0.6:
+            spelled = relativize(rng, base, u)
+        assert (join(base, spelled) if base else spelled) == u, (base, spelled, u)
+        props.kvs.append(("p%d" % i, Obj([("$ref", spelled + frag)])))
+        for mm in sorted(set([m] + rng.sample(marks, min(3, len(marks))))):
+            insts.append(Obj([("p%d" % i, mm)]))
+            expect.append(mm == m)
+    root = Obj([("properties", props)])
+    if root_defs.kvs:
+        root.set(defs_kw, root_defs)
+    args_base = base
+    if base and rng.random() < 0.4:
+        root.kvs.insert(0, ("$id", base))
+        args_base = ""
+    if draft == "7":
+        root.kvs.insert(0, ("$schema", "http://json-schema.org/draft-07/schema#"))
+    rng.shuffle(docs)
+    args = {"schema": root, "docs": docs, "base": args_base, "loader": True, "insts": insts}
+    meta = {"kind": "universe", "twin": True, "expect": expect, "nrefs": len(refs), "ndocs": len(docs), "kw": 3,
+            "needs": sorted(d[0] for d in docs)}
+    return args, meta
 
 
 def mixed_cycle(rng):
